@@ -40,7 +40,86 @@ def pred_coll_update_same_pass(cfg, run, ln, clause):
     return all(p >= 2 and st['iter'][p - 1] == st['iter'][p - 2] for p in bad)
 
 
+def _post_steps(run):
+    out = []
+    for ln in run['ev']:
+        if ln['k'] == 'st':
+            out += ln.get('ps', [])
+    return out
+
+
+def pred_stats_marker_collision(cfg, run, ln, clause):
+    """every surplus record returned by filter_stats(recomputed=False) stems from a REJECTED attempt whose key
+    (time, num_restarts) was re-used by a later post_step (so its `_recomputed` marker was overwritten / outranked),
+    and every missing record of an accepted step is outranked by a rejected attempt at the same time"""
+    end = run['ev'][-1]
+    if end.get('k') != 'end' or not end.get('has_stats'):
+        return False
+    ps = _post_steps(run)
+    explained_any = False
+    for T, got in end['filtered']:
+        key = (lambda p: p['t'] + p['dt']) if T == 'u' else (lambda p: p['t'])
+        acc = [(i, p) for i, p in enumerate(ps) if not p['rs']]
+        rej = [(i, p) for i, p in enumerate(ps) if p['rs']]
+        want = sorted(key(p) for _, p in acc)
+        have = sorted(t for t, _ in got)
+        surplus = list(have)
+        for t in want:
+            if t in surplus:
+                surplus.remove(t)
+        missing = list(want)
+        for t in have:
+            if t in missing:
+                missing.remove(t)
+        for t in surplus:
+            # a rejected attempt keyed at t, and a later post_step touching time t with at least its restart count
+            ok = any(key(a) == t and any(j > i and t in (b['t'], b['t'] + b['dt']) and b['riar'] >= a['riar']
+                                         for j, b in enumerate(ps))
+                     for i, a in rej)
+            if not ok:
+                return False
+            explained_any = True
+        for t in missing:
+            ok = any(key(b) == t and any(t in (a['t'], a['t'] + a['dt']) and a['riar'] >= b['riar'] for _, a in rej)
+                     for _, b in acc)
+            if not ok:
+                return False
+            explained_any = True
+    if clause == 'stats.niter':
+        return True if explained_any or _dup_times(end) else False
+    return explained_any
+
+
+def _dup_times(end):
+    for T, got in end['filtered']:
+        ts = [t for t, _ in got]
+        if len(ts) != len(set(ts)):
+            return True
+    return False
+
+
+def pred_spread_inplace(cfg, run, ln, clause):
+    """overwrite_to_reach_Tend, restart at a slot 1 <= r < last of a block of >= 3 steps; steps up to r share one
+    step size and the steps after r share another"""
+    if not cfg.get('OW'):
+        return False
+    line = run['ev'][ln - 1]
+    st = _last_stage_line(run, ln)
+    if line.get('k') != 'rb' or st is None:
+        return False
+    rs = st['rs']
+    if True not in rs:
+        return False
+    r = rs.index(True)
+    n_old = st['nact']
+    if not (1 <= r < n_old - 1 and n_old >= 3):
+        return False
+    d = line['dt'][:n_old]
+    return len(set(d[:r + 1])) == 1 and len(set(d[r + 1:])) == 1
+
+
 PREDICATES = {
+    'stats_marker_collision': pred_stats_marker_collision,
     'iter0_no_sweep': pred_iter0_no_sweep,
     'coll_update_same_pass': pred_coll_update_same_pass,
 }
